@@ -197,6 +197,15 @@ package verifier
 //@   ensures[descendants] result == nil && !isContractReceiveB(transaction.Block) ==> len(transaction.Block.DescendantBlocks) == 0
 //@   modifies nothing
 
+// The interface the supervisor calls (implemented by accountVerifier above): what a caller may rely on.
+//@ func AccountBlockVerifier.AccountBlockTransaction(self, transaction)
+//@   ensures[hash] result == nil ==> okHash(transaction.Block)
+//@   ensures[signature] result == nil ==> okSignature(transaction.Block)
+//@   ensures[producer] result == nil ==> okProducer(transaction.Block)
+//@   modifies nothing
+//@ func AccountBlockVerifier.AccountBlock(self, block)
+//@   modifies nothing
+
 // ======================================================================================================================
 // Property C05: a momentum is accepted only if its hash commits to its content and to the resulting state changes, it
 // directly extends the node's frontier with a strictly later timestamp, and it is signed by the elected pillar.
